@@ -36,7 +36,7 @@ STOP = ["complete", "complete", "failed", "raise", "hang", "return_early"]
 @st.composite
 def case_strategy(draw: Any) -> Dict[str, Any]:
     st_to = draw(st.sampled_from([1.0, 5.0, 60.0]))
-    return {
+    case = {
         "sched": draw(st.integers(0, 999)),
         "startup": draw(st.sampled_from(START)),
         "startup_delay": draw(st.sampled_from([0.0, 0.5, 0.9])) * st_to,
@@ -57,6 +57,12 @@ def case_strategy(draw: Any) -> Dict[str, Any]:
         # connection just the same
         "boot_state": draw(st.sampled_from([True, True, False])),
     }
+    if case["startup"] in ("raise", "return_early") and draw(st.booleans()):
+        # the application leaves the lifespan scope at once, before the server has sent it
+        # anything (what a WSGI wrapper, or an app without lifespan support, does)
+        case["no_recv"] = True
+        case["startup_delay"] = 0.0
+    return case
 
 
 def _failed(typ: str, case: Dict[str, Any]) -> dict:
@@ -67,7 +73,8 @@ def _failed(typ: str, case: Dict[str, Any]) -> dict:
 
 
 def lifespan_program(case: Dict[str, Any]) -> list:
-    prog: list = [["recv"]] + ([["set_state", "boot", 7]] if case.get("boot_state", True) else []) \
+    prog: list = ([] if case.get("no_recv") else [["recv"]]) \
+        + ([["set_state", "boot", 7]] if case.get("boot_state", True) else []) \
         + [["sleep", case["startup_delay"]]]
     s = case["startup"]
     if s == "complete":
@@ -169,7 +176,11 @@ def judge(case: Dict[str, Any], res: Any) -> None:
     if len(life) != 1:
         raise Violation("lifespan_instance_count", f"{len(life)}", **tag)
     L = life[0]
-    if not L.received or L.received[0]["type"] != "lifespan.startup" or L.received[0]["_t"] != 0.0:
+    if case.get("no_recv"):
+        if L.received:
+            raise Violation("harness", "the lifespan application was meant not to receive")
+    elif not L.received or L.received[0]["type"] != "lifespan.startup" \
+            or L.received[0]["_t"] != 0.0:
         raise Violation("startup_not_first", f"{[(m['type'], m['_t']) for m in L.received]}",
                         **tag)
     connected = [e for e in log.events if e["kind"] == "connected"]
